@@ -42,7 +42,13 @@ Pat0r == Scal2 \cup Vars3
 Pat1r == Pat0r \cup {Obj(f) : f \in ObjOver(K2, Pat0r)}
                \cup {<<"pobj", VY, v>> : v \in Pat0r}
                \cup {Arr(s) : s \in ArrUpTo(2, Pat0r)}
-Pat2 == {Obj(f) : f \in ObjOver(K2, Pat1r)} \cup {Arr(s) : s \in ArrUpTo(2, Pat1r)}
+\* depth 2: one-key maps and arrays of up to two members over the depth-1 patterns, two-key maps over the depth-0 ones and
+\* one nested pattern (the full product - 12,091 patterns x 722 messages x 6 bindings - is 52 million cases, more than a
+\* run can enumerate, export, drive and judge)
+Pat2 == {Obj(f) : f \in ObjOver({"a"}, Pat1r)}
+        \cup {Arr(s) : s \in ArrUpTo(1, Pat1r)}
+        \cup {Obj([k \in K2 |-> IF k = "a" THEN q ELSE r]) : q \in Pat1r, r \in Pat0r}
+        \cup {Arr(<<q, r>>) : q \in Pat1r, r \in Scal2}
 
 \* ---- initial bindings
 BsU == { EmptyFn,
